@@ -5,6 +5,8 @@ type nat =
 | O
 | S of nat
 
+val option_map : ('a1 -> 'a2) -> 'a1 option -> 'a2 option
+
 val fst : ('a1 * 'a2) -> 'a1
 
 val snd : ('a1 * 'a2) -> 'a2
@@ -51,6 +53,8 @@ val concat : 'a1 list list -> 'a1 list
 
 val map : ('a1 -> 'a2) -> 'a1 list -> 'a2 list
 
+val flat_map : ('a1 -> 'a2 list) -> 'a1 list -> 'a2 list
+
 val fold_left : ('a1 -> 'a2 -> 'a1) -> 'a2 list -> 'a1 -> 'a1
 
 val fold_right : ('a2 -> 'a1 -> 'a1) -> 'a1 -> 'a2 list -> 'a1
@@ -61,9 +65,13 @@ val forallb : ('a1 -> bool) -> 'a1 list -> bool
 
 val filter : ('a1 -> bool) -> 'a1 list -> 'a1 list
 
+val combine : 'a1 list -> 'a2 list -> ('a1 * 'a2) list
+
 val firstn : nat -> 'a1 list -> 'a1 list
 
 val skipn : nat -> 'a1 list -> 'a1 list
+
+val seq : nat -> nat -> nat list
 
 val repeat : 'a1 -> nat -> 'a1 list
 
@@ -481,6 +489,243 @@ val check_answer : acall -> val0 -> z list
 
 val dispatch_algo : z -> val0 -> val0 option
 
+val cOLON : z
+
+val cOMMA : z
+
+val pLUS : z
+
+val sPACE : z
+
+val dASH : z
+
+val is_upper : z -> bool
+
+val is_lower : z -> bool
+
+val lower : z -> z
+
+val to_lower : str -> str
+
+val is_sep : z -> bool
+
+val split_aux : z -> str -> str -> str list
+
+val split_on : z -> str -> str list
+
+type key =
+| KRune of z
+| KCtrl of z
+| KNamed of str
+| KF of z
+| KAlt of z
+| KCtrlAlt of z
+
+val key_eqb : key -> key -> bool
+
+val named_keys : (str * key) list
+
+val assoc_str : str -> (str * 'a1) list -> 'a1 option
+
+val has_prefix : str -> str -> bool
+
+val s_f : str
+
+val s_alt : str
+
+val s_ctrl : str
+
+val s_ctrl_alt : str
+
+val key_of_token : str -> key option
+
+type action = str * str
+
+val simple_actions : (str * str list) list
+
+val arg_actions : (str * str) list
+
+val checked_arg_actions : str list
+
+val mem_str : str -> str list -> bool
+
+type aform =
+| FPair of z * z
+| FColon
+
+val closer_of : z -> z option
+
+val form_ok : aform -> bool
+
+type act =
+| ASimple of str
+| AArg of str * aform * str
+
+type bpair = str list * act list
+
+type bind0 = bpair list
+
+val join : z -> str list -> str
+
+val render_act : act -> str
+
+val render_pair : bpair -> str
+
+val render : bind0 -> str
+
+val arg_free : z -> str -> bool
+
+val key_spelling_ok : str -> bool
+
+val act_ok : bool -> act -> bool
+
+val acts_ok : bool -> act list -> bool
+
+val pair_ok : bool -> bpair -> bool
+
+val wf_bind : bind0 -> bool
+
+type keymap = (key * action list) list
+
+val km_get : keymap -> key -> action list
+
+val km_set : keymap -> key -> action list -> keymap
+
+val act_denote : act -> action list
+
+val acts_denote : act list -> action list
+
+val key_denote : str -> key
+
+val pair_denote : keymap -> bpair -> keymap
+
+val denote : keymap -> bind0 -> keymap
+
+type 'a outcome =
+| Good of 'a
+| Bad of z
+
+val e_KEY_REQUIRED : z
+
+val e_UNSUPPORTED_KEY : z
+
+val e_UNKNOWN_ACTION : z
+
+val e_PUT : z
+
+val e_NO_ACTION : z
+
+val exec_names : str list
+
+val prefix_ci : str -> str -> bool
+
+val first_match : str list -> str -> nat option
+
+val is_colon_plus : z -> bool
+
+val find_exec : str -> nat option
+
+val find_close_from : z -> str -> nat option
+
+val find_close : z -> str -> nat option
+
+val blanks : nat -> str
+
+val mask_loop : nat -> str -> str res
+
+val rep2 : z -> z -> z -> z -> str -> str
+
+val rep3 : z -> z -> z -> z -> z -> z -> str -> str
+
+val eSC_COLON : z
+
+val eSC_COMMA : z
+
+val eSC_PLUS : z
+
+val escapes : str -> str
+
+val mask_action_contents : str -> str res
+
+val s_alt_comma : str
+
+val s_put : str
+
+val s_change_multi : str
+
+val key_arg_actions : str list
+
+val alt_comma : nat -> str -> str
+
+val contains : str -> str -> bool
+
+val has_suffix : str -> str -> bool
+
+val key_of_masked_token : str -> key option
+
+val add_key : key -> key list -> key list
+
+val chords_loop : str list -> key list -> key list outcome
+
+val parse_key_chords : str -> key list outcome
+
+val is_name_char : z -> bool
+
+val take_while : (z -> bool) -> str -> str
+
+val name_prefix : str -> str
+
+val switch_table : (str * str list) list
+
+val is_execute_action : str -> str option res
+
+val check_arg : str -> str -> unit outcome
+
+val pal_loop :
+  str list -> bool -> str -> action list -> action list -> bool -> action
+  list outcome res
+
+val split2_aux : z -> (z * z) list -> (z * z) list -> (z * z) list list
+
+val split2 : z -> (z * z) list -> (z * z) list list
+
+val parse_action_list :
+  str -> str -> action list -> bool -> action list outcome res
+
+val parse_single_action_list : str -> action list outcome res
+
+val break_colon :
+  (z * z) list -> (z * z) list -> (z * z) list * (z * z) list option
+
+val key_of_name : str -> key outcome
+
+val put_allowed_for : key -> bool
+
+val bind_keys : str list -> keymap -> str -> str -> keymap outcome res
+
+val keymap_loop :
+  (z * z) list list -> str list -> keymap -> keymap outcome res
+
+val parse_keymap : keymap -> str -> keymap outcome res
+
+val parse_keymaps : keymap -> str list -> keymap outcome res
+
+val enc_key : key -> val0
+
+val enc_action : action -> val0
+
+val enc_keymap : keymap -> val0
+
+val enc_out : ('a1 -> val0) -> 'a1 outcome res -> val0
+
+val dec_act : val0 -> act
+
+val dec_pair : val0 -> bpair
+
+val dec_bind : val0 -> bind0
+
+val dispatch_bind : z -> val0 -> val0 option
+
 val nL : z
 
 val split_nl_aux : str -> str -> str list
@@ -553,6 +798,306 @@ val d_spec_stored : nat -> fs -> str list -> val0
 
 val dispatch_history : z -> val0 -> val0 option
 
+type field = nat
+
+val f_FUZZY : field
+
+val f_EXTENDED : field
+
+val f_NORMALIZE : field
+
+val f_ALGO : field
+
+val f_SCHEME : field
+
+val f_CRITERIA : field
+
+val f_NTH : field
+
+val f_DELIM : field
+
+val f_SORT : field
+
+val f_MULTI : field
+
+val f_HEIGHT : field
+
+val f_QUERY : field
+
+val f_FILTER : field
+
+val f_HISTORY : field
+
+val f_HISTMAX : field
+
+val f_HEADER : field
+
+val f_HEADERLINES : field
+
+val f_LISTEN : field
+
+val f_UNSAFE : field
+
+val f_WALKER : field
+
+val f_WALKERROOT : field
+
+val f_WALKERSKIP : field
+
+val f_PROMPT : field
+
+val f_GHOST : field
+
+val f_TABSTOP : field
+
+val f_HSCROLLOFF : field
+
+val f_SCROLLOFF : field
+
+val f_MOUSE : field
+
+val f_BOLD : field
+
+val f_HSCROLL : field
+
+val f_MULTILINE : field
+
+val f_CLEAR : field
+
+val f_UNICODE : field
+
+val f_INFOCMD : field
+
+val f_WITHSHELL : field
+
+val f_PREVIEW : field
+
+val f_HMAXLOCAL : field
+
+val nOBSERVABLE : nat
+
+val t : val0
+
+val fv : val0
+
+val vnone : val0
+
+val vsome : val0 -> val0
+
+val is_digit : z -> bool
+
+val digits_val : z -> str -> z option
+
+val atoi : str -> z option
+
+val sequence : 'a1 option list -> 'a1 list option
+
+val s_default : str
+
+val s_path : str
+
+val s_history : str
+
+val s_v1 : str
+
+val s_v2 : str
+
+val s_reverse : str
+
+val s_reverse_list : str
+
+val s_localhost : str
+
+val s_file : str
+
+val s_dir : str
+
+val s_hidden : str
+
+val s_follow : str
+
+val crit_names : (str * z) list
+
+val scheme_criteria : str -> z list option
+
+val vints : z list -> val0
+
+val e_UNKNOWN_OPTION : z
+
+val e_VALUE_REQUIRED : z
+
+val e_BAD_VALUE : z
+
+val e_UNEXPECTED_VALUE : z
+
+val e_VALIDATION : z
+
+val e_HISTORY : z
+
+type cfg = { fv0 : (field -> val0); kmap : keymap; expect : key list }
+
+val setf : field -> val0 -> cfg -> cfg
+
+val setfs : (field * val0) list -> cfg -> cfg
+
+type env = { isdir : (str -> bool); histok : (str -> bool); tty : bool }
+
+type pid =
+| PStr
+| PSomeStr
+| PInt
+| PPosInt
+| PAlgo
+| PScheme
+| PTiebreak
+| PNth
+| PNthT
+| PDelim
+| PLayout
+| PHeight
+| PLines
+| PWalker
+| PSkip
+
+val mem_z : z -> z list -> bool
+
+val tb_loop : str list -> z list -> z list -> bool -> z list option
+
+val parse_tiebreak : str -> z list option
+
+val dOT : z
+
+val find_dotdot : str -> str -> (str * str) option
+
+val nonzero : z option -> z option
+
+val new_range : z -> z -> z * z
+
+val parse_range : str -> (z * z) option
+
+val nth_char : z -> bool
+
+val nth_expr : str -> bool
+
+val split_nth : str -> (z * z) list option
+
+val placeholder_here : str -> bool
+
+val has_placeholder : str -> bool
+
+val nth_transformer_ok : str -> bool
+
+val delim_unescape : str -> str
+
+val parse_height : str -> val0 option
+
+val str_lines : str -> str list
+
+val walker_loop : str list -> bool -> bool -> bool -> bool -> val0 option
+
+val parse_listen : str -> val0 option
+
+val run_parser : pid -> str -> val0 list option
+
+type okind =
+| KFlag of (field * val0) list
+| KReq of field list * pid
+| KOptNum of field * z
+| KListen of bool
+| KDirs of field
+| KHistory
+| KHistorySize
+| KExpect
+| KNoExpect
+| KBind
+
+val height_zero : val0
+
+val mAX_MULTI : z
+
+val opt_table : (str * okind) list
+
+val kind_writes : okind -> field list
+
+val consumes_val : okind -> bool
+
+val break_eq : str -> str -> str * str option
+
+val split_arg : str -> str * str option
+
+val s_q : str
+
+val s_f0 : str
+
+val s_d : str
+
+val s_n : str
+
+val s_s : str
+
+val s_m : str
+
+val attached : str -> (okind * str option) option
+
+val resolve : str -> (okind * str option) option
+
+val writes : str -> field list
+
+val starts_with : z -> str -> bool
+
+val next_string : str option -> str list -> (str * nat) option
+
+val take_dirs : env -> str list -> str list
+
+val history_set : cfg -> bool
+
+val exec :
+  env -> okind -> str option -> cfg -> str list -> (cfg * nat) outcome res
+
+val step : env -> cfg -> str -> str list -> (cfg * nat) outcome res
+
+val go : env -> cfg -> nat -> str list -> cfg outcome res
+
+val as_z : val0 -> z
+
+val end_validate : cfg -> cfg outcome
+
+val layer_init : cfg -> cfg
+
+val parse_layer : env -> cfg -> str list -> cfg outcome res
+
+val parse_layers : env -> cfg -> str list list -> cfg outcome res
+
+val s_dotgit : str
+
+val s_node_modules : str
+
+val s_prompt : str
+
+val default_cfg : cfg
+
+val s_reload : str
+
+val s_reload_sync : str
+
+val s_transform : str
+
+val s_start : str
+
+val reload_on_start : cfg -> bool
+
+val finalize : env -> cfg -> cfg
+
+val parse_all : env -> str list -> str list -> str list -> cfg outcome res
+
+val dec_env : val0 -> env
+
+val enc_cfg : cfg -> val0
+
+val option_effect : str -> str -> val0
+
+val dispatch_option : z -> val0 -> val0 option
+
 val c_sq : z
 
 val c_bs : z
@@ -571,7 +1116,7 @@ type mode =
 
 type lst = { l_mode : mode; l_cur : str; l_acc : str list }
 
-val step : lst -> z -> lst option
+val step0 : lst -> z -> lst option
 
 val run : lst -> str -> lst option
 
@@ -615,9 +1160,9 @@ val export_line : str -> str -> str
 
 val strip_prefix : str -> str -> str option
 
-val has_prefix : str -> str -> bool
+val has_prefix0 : str -> str -> bool
 
-val has_suffix : str -> str -> bool
+val has_suffix0 : str -> str -> bool
 
 val trim_suffix : str -> str -> str
 
@@ -675,15 +1220,15 @@ val s_fzf_colon : str
 
 val parse_placeholder : str -> (flags * str) res
 
-val is_digit : z -> bool
+val is_digit0 : z -> bool
 
-val digits_val : z -> str -> z option
+val digits_val0 : z -> str -> z option
 
 val int_min : z
 
 val int_max : z
 
-val atoi : str -> z option
+val atoi0 : str -> z option
 
 val itoa_pos : nat -> z -> str -> str
 
@@ -697,17 +1242,17 @@ val split_dd : str -> str -> str list
 
 type rng = z * z
 
-val new_range : z -> z -> rng
+val new_range0 : z -> z -> rng
 
 val atoi_nz : str -> z option
 
-val parse_range : str -> rng option
+val parse_range0 : str -> rng option
 
 val split_comma : str -> str -> str list
 
 val parse_ranges : str list -> rng list option
 
-val split_nth : str -> rng list option
+val split_nth0 : str -> rng list option
 
 type awk_state =
 | AwkNil
@@ -755,9 +1300,9 @@ type outp =
 | OText of str
 | OWords of (str * str) list
 
-val render : outp -> str
+val render0 : outp -> str
 
-val s_q : str
+val s_q0 : str
 
 val s_q_colon : str
 
@@ -846,7 +1391,7 @@ type fexpr =
 | FIdx of z
 | FRange of z option * z option
 
-val resolve : z -> z -> z
+val resolve0 : z -> z -> z
 
 val sel_bounds : fexpr -> z -> z * z
 
@@ -864,7 +1409,7 @@ val digits : z -> str
 
 val itoa0 : z -> str
 
-val dOT : z
+val dOT0 : z
 
 val print_fexpr : fexpr -> str
 
@@ -900,11 +1445,11 @@ val regex_tokens : str -> nat -> (nat * nat) list -> str list res
 
 val tokenize0 : str -> delimiter -> token list res
 
-val has_prefix0 : str -> str -> bool
+val has_prefix1 : str -> str -> bool
 
-val has_suffix0 : str -> str -> bool
+val has_suffix1 : str -> str -> bool
 
-val contains : str -> str -> bool
+val contains0 : str -> str -> bool
 
 val trim_suffix0 : str -> str -> str
 
@@ -912,7 +1457,7 @@ val split_go : str -> nat -> str -> str -> str list
 
 val split : str -> str -> str list
 
-val is_digit0 : z -> bool
+val is_digit1 : z -> bool
 
 val digits_value : str -> z
 
@@ -920,15 +1465,15 @@ val iNT_MIN : z
 
 val iNT_MAX : z
 
-val atoi0 : str -> z option
+val atoi1 : str -> z option
 
 type range = z * z
 
-val new_range0 : z -> z -> range
+val new_range1 : z -> z -> range
 
 val dD : str
 
-val parse_range0 : str -> range option
+val parse_range1 : str -> range option
 
 val range_to_string : range -> str
 
